@@ -255,6 +255,10 @@ class AstToSqlVisitor(visitor.NodeVisitor):
         ":meta private:"
         return "NOT"
 
+    def visit_USub(self, node: ast.USub) -> str:
+        ":meta private:"
+        return "-"
+
     def visit_UnaryOp(self, node: ast.UnaryOp) -> str:
         ":meta private:"
         op = self.visit(node.op)
@@ -262,6 +266,8 @@ class AstToSqlVisitor(visitor.NodeVisitor):
 
         # In case of a subexpression, wrap it in parentheses
         if isinstance(node.operand, ast.BoolOp):
+            operand = f"({operand})"
+        elif isinstance(node.op, ast.USub) and self._sql_precedence(node.operand) < 8:
             operand = f"({operand})"
 
         return f"{op} {operand}"
